@@ -189,7 +189,7 @@ Dev(d, r) ==
      \* (the format text itself is not observable, its class is: named when the class comes out wrong)
      \cup (IF v = 5 /\ d.fmt # <<>> /\ r.scans # <<>> /\ r.scans[1][2] # Detect(U(d.fmt)) THEN {"Biff5Format"} ELSE {})
      \cup (IF v = 5 /\ d.lbl THEN {"Biff5Lbl"} ELSE {})
-     \cup (IF v = 5 /\ Len(Bytes5(d.tc)) < 2 THEN {"ShortString"} ELSE {})
+     \* (ShortString -- v = 5 /\ Len(Bytes5(d.tc)) < 2 -- repaired in /repo, no longer a deviation)
      \* (repaired by /repo 4e8471f, no longer deviations: Biff8CodePage -- v = 8 /\ cp \notin {0, 1200} --
      \*  and BomSniff -- a string whose bytes start with FF FE / FE FF / EF BB BF; MC_Biff5_aswas.cfg keeps the
      \*  reader as it was and has to violate Refines)
